@@ -79,6 +79,7 @@ type Frame struct {
 	con      *Contract
 	vals     map[ssa.Value]T
 	tuples   map[ssa.Value][]T
+	structs  map[ssa.Value][]structLeaf // struct values held in SSA registers (copied field by field)
 	lvs      map[ssa.Value]*LV
 	entrySt  State
 	outSt    map[*ssa.BasicBlock]State
@@ -105,6 +106,52 @@ type Frame struct {
 	frameHook func(cur *Frame, lv *LV, addr ssa.Value, pos token.Pos)
 	frameMapHook func(cur *Frame, mv ssa.Value, m T, mt *types.Map, pos token.Pos)
 	frameCallHook func(cur *Frame, callee string, ms ModSet, calleeLocs []assignLoc, hasAssigns bool, tr *Translator, pos token.Pos)
+}
+
+type structLeaf struct {
+	arr   string
+	asort Sort
+	off   int64
+	val   T
+}
+
+// structLeaves enumerates the flattened leaf fields of struct type t (own structs only).
+func (f *Frame) structLeaves(t types.Type, off int64, out *[]structLeaf) {
+	st, ok := structOf(t)
+	if !ok || !f.p.ownStruct(t) {
+		return
+	}
+	for i := 0; i < st.NumFields(); i++ {
+		ft := st.Field(i).Type()
+		fo := off + fieldOffset(st, i)
+		if _, isStruct := structOf(ft); isStruct {
+			if f.p.ownStruct(ft) {
+				f.structLeaves(ft, fo, out)
+			}
+			continue
+		}
+		arr, asort := f.p.fieldArray(t, i)
+		_, vs := arrParts(asort)
+		f.enc.declSortOf(vs)
+		// the array is indexed by the address of the directly containing struct
+		*out = append(*out, structLeaf{arr: arr, asort: asort, off: off})
+	}
+}
+
+func (f *Frame) loadStruct(addr T, t types.Type) []structLeaf {
+	var leaves []structLeaf
+	f.structLeaves(t, 0, &leaves)
+	for i := range leaves {
+		l := &leaves[i]
+		l.val = f.enc.define(f.sym("sv"), Select(f.stGet(l.arr, l.asort), Add(addr, IntLit(l.off))))
+	}
+	return leaves
+}
+
+func (f *Frame) storeStruct(addr T, leaves []structLeaf) {
+	for _, l := range leaves {
+		f.stSet(l.arr, Store(f.stGet(l.arr, l.asort), Add(addr, IntLit(l.off)), l.val))
+	}
 }
 
 type nameRef struct {
@@ -155,7 +202,7 @@ func (f *Frame) refWf(name string, arr T, bound T) {
 	var body string
 	switch ft.Underlying().(type) {
 	case *types.Slice:
-		body = fmt.Sprintf("(<= (sptr (select %s r!w)) %s)", arr.S, bound.S)
+		body = fmt.Sprintf("(and (<= (sptr (select %[1]s r!w)) %[2]s) (<= 0 (slen (select %[1]s r!w))) (<= (slen (select %[1]s r!w)) (scap (select %[1]s r!w))) (<= 0 (soff (select %[1]s r!w))) (<= 0 (sptr (select %[1]s r!w))))", arr.S, bound.S)
 	case *types.Pointer, *types.Map:
 		body = fmt.Sprintf("(and (<= 0 (select %s r!w)) (<= (select %s r!w) %s))", arr.S, arr.S, bound.S)
 	default:
@@ -248,6 +295,7 @@ func (f *Frame) oblige(class, kind string, pos token.Pos, cond T) *Obl {
 	}
 	o := &Obl{Name: name, Class: class, Func: f.topName(), Path: f.curPath(), Cond: cond, Pos: f.p.pos(pos), SrcLine: line}
 	o.Extra = append(o.Extra, f.enc.extras...)
+	o.Extra = append(o.Extra, f.pointUses()...)
 	f.enc.obls = append(f.enc.obls, o)
 	// after checking, the condition is assumed (execution continues only if it held)
 	f.assume(cond)
@@ -495,6 +543,19 @@ func (f *Frame) findLoops() {
 		li.ordinal = i
 		if f.con != nil && f.con.Loops != nil {
 			li.spec = f.con.Loops[i]
+		}
+		// automatic (checked) invariant: the hidden index of a range loop never drops below -1
+		for _, in := range h.Instrs {
+			if phi, ok := in.(*ssa.Phi); ok && phi.Comment == "rangeindex" {
+				e, _ := parseExpr("0 <= rangeindex + 1")
+				spec := &LoopSpec{}
+				if li.spec != nil {
+					*spec = *li.spec
+				}
+				spec.Invs = append([]*Clause{{Label: "auto-range", Src: "0 <= rangeindex + 1", Expr: e}}, spec.Invs...)
+				li.spec = spec
+				break
+			}
 		}
 		li.mods = ModSet{}
 		inScope := func(in ssa.Instruction) bool { return li.blocks[in.Block()] }
@@ -848,6 +909,29 @@ func (f *Frame) unassumeLast() {
 	if len(f.pathAcc) > 0 {
 		f.pathAcc = f.pathAcc[:len(f.pathAcc)-1]
 	}
+}
+
+// pointUses: function-level `use` clauses instantiated at the current program point (those whose names
+// resolve here; the others are skipped).
+func (f *Frame) pointUses() (out []string) {
+	if f.con == nil || len(f.con.Uses) == 0 || f.cur == nil || !f.top {
+		return nil
+	}
+	for _, u := range f.con.Uses {
+		func() {
+			defer func() {
+				if r := recover(); r != nil {
+					if _, ok := r.(trErr); ok {
+						return
+					}
+					panic(r)
+				}
+			}()
+			tr := f.translator(f.cur, nil, f.st, nil)
+			out = append(out, tr.useInstance(u)...)
+		}()
+	}
+	return out
 }
 
 // obligeNamed: obligation with an explicit stable name (contract-derived).
